@@ -411,6 +411,7 @@ func (f *Frame) havocCall(st *State, ms *ModSet, resType types.Type, name string
 
 // applyContract: assert pre, havoc frame, assume post. The callee body is not consulted.
 func (f *Frame) applyContract(ins ssa.Instruction, c *Contract, ct *callTarget, st *State, resType types.Type) Value {
+	nHypsBefore := len(f.root.hyps)
 	if ct.invoke {
 		f.safe(st, "nil", tNot(tEq(ct.args[0].(*Term), tInt(0))), ins.Pos(), "method call on nil interface")
 	}
@@ -484,6 +485,14 @@ func (f *Frame) applyContract(ins ssa.Instruction, c *Contract, ct *callTarget, 
 		nv := f.havocTyped(st, et, "wr_"+w).(*Term)
 		st.store(&Addr{ref: sv.t, base: et, typ: et}, nv)
 	}
+	if c.Flags["fresh"] && st.alloc == pre.alloc {
+		// the callee allocates its result: move the allocation mark, otherwise "result is new" (> old mark) and the
+		// type fact "result exists" (<= current mark) contradict each other for a callee whose frame allocates nothing
+		// that the engine knows of (external function) - every path behind such a call would be vacuous
+		na := fresh("alloc", sortInt)
+		f.addHyp(tTrue(), tGt(na, st.alloc))
+		st.alloc = na
+	}
 	res := f.havocTyped(st, resType, "r_"+lastName(ct.display))
 	if c.Flags["fresh"] {
 		if t, ok := res.(*Term); ok && isPointerLike(resType) {
@@ -505,6 +514,20 @@ func (f *Frame) applyContract(ins ssa.Instruction, c *Contract, ct *callTarget, 
 	}
 	if c.Assumed {
 		f.root.notes["assumed contract: "+c.Func] = true
+		// vacuity guard: the first application of each assumed contract in a function must leave the path satisfiable
+		// (if it was before) - a contradictory boundary assumption would silently prove everything behind the call
+		key := "consistency:" + c.Func
+		if f.root.oblSeen[key] == 0 && !f.root.initMode {
+			f.root.oblSeen[key] = 1
+			o := &Obligation{ID: f.root.name + "#consistency:" + lastName(ct.display), Fn: f.root.name, Kind: "consistency", Label: lastName(ct.display),
+				Goal: tNot(st.pc), PC: tTrue(), ctx: f.root, nHyps: len(f.root.hyps), nBefore: nHypsBefore, Cover: true,
+				Pos: f.eng.prog.Fset.Position(ins.Pos()).String(), Text: "assumed contract of " + c.Func + " leaves the path satisfiable"}
+			o.Props = f.root.supportProps()
+			if f.root.safety {
+				o.Props = append(append([]string{}, o.Props...), "C20")
+			}
+			f.root.obls = append(f.root.obls, o)
+		}
 	}
 	return res
 }
